@@ -190,6 +190,10 @@ impl Client {
                     if let Some(search) = current_search.take() {
                         search.wait_cancel();
                     }
+
+                    // A new game must not inherit the positions seen and the evaluations
+                    // stored during the previous one
+                    previous_artifact = None;
                 }
                 Some((&"quit", _)) => break,
                 Some((&".state", _)) => {
